@@ -227,11 +227,19 @@ Definition queue_if_ready (ready : bool) (t : task) : task :=
      && negb (t_manual t) && ready_to_run ready t
   then set_queued t else t.
 
-(* queue_or_trigger (cylc trigger): [limited] = push_task_if_limited put it in a queue *)
+(* queue_or_trigger (cylc trigger), for every state of its target.  The first thing it does is
+   is_manual_submit = True; then state_reset(waiting); then
+     - target not flagged queued: push_task_if_limited ([limited] = the queue limit is reached: the
+       task is put in the queue and flagged queued);
+     - target flagged queued: task_queue_mgr.remove_task; if it was in a queue the flag is cleared
+       (the task runs now regardless of the limit);
+   and if it is not flagged queued now: waiting_on_job_prep = True, added to tasks_to_trigger_now.
+   Held and runahead flags are not touched. *)
 Definition queue_or_trigger (limited : bool) (t : task) : task :=
-  let q := if t_queued t then false else limited in   (* queued before: taken out and run now *)
+  let q := if t_queued t then negb (t_inq t) else limited in
+  let iq := if t_queued t then false else limited in
   mkTask (t_id t) Waiting true (t_held t) q (t_runahead t) (t_expire t) (t_flow t) (t_flow_wait t)
-         (t_outs t) (t_comp t) q (if q then t_prep t else true) (if q then t_trig t else true).
+         (t_outs t) (t_comp t) iq (if q then t_prep t else true) (if q then t_trig t else true).
 
 Definition set_held (b : bool) (t : task) : task :=
   mkTask (t_id t) (t_status t) (t_manual t) b (t_queued t) (t_runahead t) (t_expire t) (t_flow t)
@@ -390,8 +398,12 @@ Record ckpt := mkCkpt {
   k_final : option (list task)    (* pool at exit of release_tasks_to_run (None: identical to k_after) *)
 }.
 
-(* the static tables of the workflow, then one checkpoint per main-loop iteration *)
-Definition case := (env * list ckpt)%type.
+(* one call of TaskPool.queue_or_trigger in a real run: the target before, whether
+   push_task_if_limited queued it, the target after *)
+Record trig := mkTrig { g_before : task; g_limited : bool; g_after : task }.
+
+(* the static tables of the workflow, one checkpoint per main-loop iteration, the trigger calls *)
+Definition case := (env * list ckpt * list trig)%type.
 
 Definition with_hold (e : env) (h : list N) : env :=
   mkEnv (e_children e) (e_next e) (e_expire e) (e_comp e) h.
@@ -418,10 +430,18 @@ Definition check_ckpt (e0 : env) (k : ckpt) : bool :=
             pool_eqb p2 (final_of k) && list_eqb event_eqb evs2 (k_subs k))
       else true).
 
-Definition check_case (c : case) : bool := forallb (check_ckpt (fst c)) (snd c).
+Definition check_trig (g : trig) : bool :=
+  task_eqb (queue_or_trigger (g_limited g) (g_before g)) (g_after g)
+  && t_manual (g_after g) && task_ok (g_after g).
+
+Definition check_case (c : case) : bool :=
+  let '(e, ks, gs) := c in forallb (check_ckpt e) ks && forallb check_trig gs.
 
 Definition model_out (c : case) :=
-  map (fun k => (clock_expire_tasks (with_hold (fst c) (k_hold k)) (k_now k) (k_before k) (k_gone k),
-                 release_submit (k_released k) (after_of k),
-                 (wf_state (k_before k) (k_gone k), pool_ok (k_before k), pool_ok (after_of k), pool_ok (final_of k))))
-      (filter (fun k => negb (check_ckpt (fst c) k)) (snd c)).
+  let '(e, ks, gs) := c in
+  (map (fun k => (clock_expire_tasks (with_hold e (k_hold k)) (k_now k) (k_before k) (k_gone k),
+                  release_submit (k_released k) (after_of k),
+                  (wf_state (k_before k) (k_gone k), pool_ok (k_before k), pool_ok (after_of k), pool_ok (final_of k))))
+       (filter (fun k => negb (check_ckpt e k)) ks),
+   map (fun g => (g_before g, queue_or_trigger (g_limited g) (g_before g)))
+       (filter (fun g => negb (check_trig g)) gs)).
